@@ -1,6 +1,7 @@
 (** * C05 — concrete dependencies: the nested entrait attribute, and an implementation for the concrete type *)
 From Coq Require Import List String Ascii Bool.
 From Entrait Require Import Tok Syn Opts Split Convert Codegen Expand Proj Proj2 Proj3 ProjSide Examples.
+From Entrait.Proofs Require PC05b.
 From Entrait.Proofs Require Import Base Shapes NonVac PC05.
 Import ListNotations.
 Local Open Scope string_scope.
@@ -73,6 +74,25 @@ Theorem c05_view_unrestricted_refuted :
   exists v attr i items, expand_items v attr i = Ok items /\ ~ good (view_C05 (mkCtx v attr i) items).
 Proof. exact c05_view_refuted. Qed.
 Print Assumptions c05_view_unrestricted_refuted.
+
+(** Composition (the second hop): the trait emitted for a concrete-dependency function carries the nested
+    [#[::entrait::entrait(unimock = false, mockall = false)]]; handing that trait back to the macro (what the
+    compiler does next) always succeeds — under either facade variant, whatever other attributes remain on
+    it — and its output satisfies C06's predicate: an impl of the trait for [::entrait::Impl<EntraitT>],
+    [where EntraitT: Trait + Sync], whose methods are [self.as_ref().m(args)[.await]]. *)
+Theorem c05_nested_invocation : forall v attr h s body a tf tg ty ib v' rest_attrs,
+  parse_fn_attr attr = Ok a ->
+  analyze RSelfRef (apply_variant v (fa_opts a)) empty_tg (merged_sig h s) = Ok (tf, tg) ->
+  expand_items v attr (InFn h s body) =
+    Ok [IFn (h_attrs h) (h_vis h) (merged_sig h s) body;
+        ITrait (gen_trait_def (apply_variant v (fa_opts a)) TPlain (MConcrete ty) (h_attrs h) None (fa_vis a) (fa_trait a) tg false pempty [tf] MSingleFn);
+        IImpl ib] ->
+  let tr := gen_trait_def (apply_variant v (fa_opts a)) TPlain (MConcrete ty) (h_attrs h) None (fa_vis a) (fa_trait a) tg false pempty [tf] MSingleFn in
+  In entrait_for_trait_attr (t_attrs tr) /\
+  exists items', expand_items v' PC05b.nested_attr_toks (PC05b.nested_input tr rest_attrs) = Ok items' /\
+                 good (view_C06 (mkCtx v' PC05b.nested_attr_toks (PC05b.nested_input tr rest_attrs)) items').
+Proof. exact PC05b.nested_invocation_expands. Qed.
+Print Assumptions c05_nested_invocation.
 
 Example c05_nonvacuous :
   forallb (nonvacuous view_C05g) [ex_fn; ex_fn_conc; ex_fn_nodeps; ex_fn_export] = true.
